@@ -587,6 +587,13 @@ class Analyzer(cfg.GraphVisitor):
     reaching_fndefs = anno.Static.DEFINED_FNS_IN.of(ast_node)
     node_scope = anno.Static.SCOPE.of(ast_node, None)
     if node_scope is not None:
+      # A symbol the statement binds without the inferrer having found a type
+      # for it (augmented assignment, loop and with targets, a value of unknown
+      # type) has an unknown type from here on, whatever it had before and
+      # whatever other paths give it.
+      for s in node_scope.modified:
+        if s not in inferrer.new_symbols:
+          types_out.types[s] = {Any}
       # TODO(mdan): Check that it's actually safe to skip nodes without scope.
       reads = {str(qn) for qn in node_scope.read}
       for def_node in reaching_fndefs:
